@@ -55,7 +55,8 @@ func (c06) ID() string { return "C06" }
 func (c06) Rule() string {
 	return "(rt) registry codecs .201/.202: Encode then Decode, decoded frame byte-equal to the source; typed htj2k.Parameters, generic parameters and nil; BlockWidth/Height in {4..64}, NumLevels 0..6; sizes: all small sizes, 1xN / Nx1 up to 600, sampled grid to 80x80, random to 600, 888x459, (dense) full 64x64 code-blocks of 12..16-bit noise; contents: full-depth noise, all-zero after level shift, impulses, low-amplitude noise, constant. " +
 		"(fixture) every lossless codestream of test-data/htj2k/interop/manifest.json decoded with jpeg2000.Decoder + htj2k.NewHTDecoder equals its input.raw (finite set, executed completely). " +
-		"non-trivial: encoder accepted and the decoded frame was compared; distinct = distinct descriptor"
+		"non-trivial: encoder accepted and the decoded frame was compared; distinct = distinct descriptor" +
+		" (gain) gainmax content (two saturated colours in the sign pattern of one equivalent 5/3 analysis filter: largest legal wavelet coefficients) at every level count and block size"
 }
 func (c06) Assumptions() []string {
 	return []string{"the bundled OpenJPH/fo-dicom fixtures and their input.raw files are what the manifest says they are"}
@@ -170,6 +171,22 @@ func (c06) Build(tier string, seed uint64) []any {
 			c.Levels = 0
 		}
 		c.SPP = 1
+		cs = append(cs, c)
+	}
+	// (gain) largest legal wavelet coefficients: two saturated colours in the sign pattern of
+	// one equivalent 5/3 analysis filter, every level count 0..6 and block size
+	nGain := 80
+	if th {
+		nGain = 1200
+	}
+	for i := 0; i < nGain; i++ {
+		r := gen.Sub(seed, "C06", "gain", i)
+		c := &c06Case{Gen: "gain", W: 12 + r.Intn(120), H: 12 + r.Intn(120)}
+		if i%3 == 0 {
+			c.W, c.H = 16*(1+r.Intn(6)), 16*(1+r.Intn(6))
+		}
+		randC06Config(r, c)
+		c.Class = "gainmax"
 		cs = append(cs, c)
 	}
 	for i := 0; i < nRand; i++ {
